@@ -633,3 +633,26 @@ Section LoopInv.
     - exfalso. apply (bstep_stop _ _ _ _ E res rho gamma). exact H.
   Qed.
 End LoopInv.
+
+(* ------------------------------------------------------------------ what the wire unit runs is the model of the theorems *)
+Lemma bloop_trace_spec q votes tgt dorder : forall fuel s,
+  bloop_trace q votes tgt dorder fuel s = (btrace q votes tgt dorder fuel s, bloop q votes tgt dorder fuel s).
+Proof.
+  induction fuel as [|f IH]; intros s; simpl; [reflexivity|].
+  destruct (bstep q votes tgt dorder s) as [|s'|r]; try reflexivity. rewrite IH. reflexivity.
+Qed.
+Lemma run_core_spec d q votes tgt dorder n fuel :
+  snd (run_core d q votes tgt dorder n fuel) = evaluate_core d q votes tgt dorder n fuel /\
+  fst (run_core d q votes tgt dorder n fuel) =
+    match binit d q votes n with inr s => btrace q votes tgt dorder fuel s | inl _ => [] end.
+Proof.
+  unfold run_core, evaluate_core. destruct (binit d q votes n) as [e|s]; [split; reflexivity|].
+  rewrite bloop_trace_spec. split; reflexivity.
+Qed.
+Lemma run_total_spec d q votes dorder n fuel :
+  snd (run_total d q votes n dorder fuel) = evaluate_total d q votes n dorder fuel.
+Proof.
+  unfold run_total, evaluate_total, evaluate_core. destruct (binit d q votes n) as [e|s]; [reflexivity|].
+  destruct (evaluate d (district_totals votes) n [] []) as [tgt [t|]|]; try reflexivity.
+  rewrite bloop_trace_spec. reflexivity.
+Qed.
